@@ -53,6 +53,8 @@ def parse(t):
     while i < len(t):
         if t[i] == 1:
             op = tuple(t[i:i + 8]); i += 8
+        elif t[i] == 4:
+            op = tuple(t[i:i + 10]); i += 10
         else:
             op = tuple(t[i:i + 2]); i += 2
         fors = []
@@ -65,9 +67,12 @@ def parse(t):
 
 
 def fmt_op(op):
-    if op[0] == 1:
+    if op[0] in (1, 4):
         cls = [n for n, f in zip(("loopback", "nat64", "relay"), op[2:5]) if f]
-        return "observe(conn=%d, observedTW=%d fam=%d proto=%d%s)" % (op[1], op[5], op[6], op[7], (" " + "+".join(cls)) if cls else "")
+        r = "observe(conn=%d, observedTW=%d fam=%d proto=%d%s)" % (op[1], op[5], op[6], op[7], (" " + "+".join(cls)) if cls else "")
+        if op[0] == 4:
+            r += "[conn %d closed+disconnected at the listenAddrs() call inside shouldRecordObservation: %s]" % (op[8], "delivered" if op[9] else "not reached")
+        return r
     return ("markclosed(conn=%d)" if op[0] == 2 else "disconnect(conn=%d)") % op[1]
 
 
@@ -132,7 +137,8 @@ if __name__ == "__main__":
              "non-thin-waist), 18 remote IPs (same IP on several conns, IPv6 sharing a /64, sharing only a /56, other /56, IPv4-mapped, no IP), "
              "50 observed addresses of every class (public, private, loopback, NAT64, relayed, no thin waist, transports sharing a thin waist), "
              "ActivationThresh set to 1..5 per case, phase-structured (build-up on hot addresses, churn, noise, teardown, late reports on closed conns) "
-             "plus a malformed stream. After every op AddrsFor(q) for every listen address and two non-listen addresses and Addrs(0) are recorded as lists "
+             "plus a malformed stream; 1 observe in 10 runs with a hook on the listenAddrs() call inside shouldRecordObservation that closes and disconnects "
+             "the observed (or another) connection before the manager's lock is taken. After every op AddrsFor(q) for every listen address and two non-listen addresses and Addrs(0) are recorded as lists "
              "(order kept), compared with the Coq model (conform_case) and judged by the property monitor (monitor_case). Non-trivial = some answer was "
              "non-empty (an address crossed the threshold); distinct = distinct case lines among those.",
         describe=describe, key=key, what=what, crosscheck=60,
